@@ -158,7 +158,12 @@ func runC15(o *hx.Out, r *hx.Rand, thorough bool) {
 				}
 				ops = append(ops, opT{kind: "reg", desc: d, descID: poolID[d], handler: h, hID: hid, impl: impl})
 			case 5, 6:
-				ops = append(ops, opT{kind: "query", name: names[r.Intn(len(names))]})
+				qn := names[r.Intn(len(names))]
+				if r.Chance(45) {
+					// a name never registered but built from one that may be: full method names, slashes, suffixes
+					qn = []string{"/" + qn, qn + "/", qn + "/M", "/" + qn + "/M", qn + "/v1", qn + ".", "." + qn, strings.ToUpper(qn) + "x", qn + "/" + qn}[r.Intn(9)]
+				}
+				ops = append(ops, opT{kind: "query", name: qn})
 			case 7:
 				ops = append(ops, opT{kind: "each"})
 			default:
@@ -167,7 +172,7 @@ func runC15(o *hx.Out, r *hx.Rand, thorough bool) {
 		}
 		ops = append(ops, opT{kind: "each"}, opT{kind: "info"})
 		for _, n := range names[:4] {
-			ops = append(ops, opT{kind: "query", name: n})
+			ops = append(ops, opT{kind: "query", name: n}, opT{kind: "query", name: "/" + n + "/M"}, opT{kind: "query", name: n + "/M"})
 		}
 
 		minfo := func(n string, cs, ss bool) string {
